@@ -30,8 +30,10 @@ EnvClauses(r, P, Q) ==
       \* (a crash record continues on the directory snapshot taken at the crash point)
       \* registered entries keep their contents; a file that is not an entry may still be completed by a pool
       \* worker that outlived a request that raised (none / partial -> good), nothing else may change
+      \* (an "invalidate" record is the environment damaging the cached copy of r.key)
       <<"EnvKeepsContents", r.op = "crash" \/ \A k \in TKey :
-            IF k \in P.entries THEN Q.files[k].st = P.files[k].st
+            IF r.op = "invalidate" /\ k = r.key THEN TRUE
+            ELSE IF k \in P.entries THEN Q.files[k].st = P.files[k].st
             ELSE Q.files[k].st \in {P.files[k].st, "good"}>>,
       <<"EnvKeepsMax", Q.max = P.max \/ r.op = "crash">>
     })
@@ -52,7 +54,11 @@ Judge(r) ==
         \* distinct URIs never share a file / every cache file belongs to a known key
         extra == IF r.Q.unknown # 0 /\ r.op \in {"get", "open", "remove", "purge"}
                  THEN {"UnknownCacheFiles"} ELSE {}
-    IN base \cup extra
+        \* the size in force is the size a new session on this directory would start with: after every call the persisted
+        \* configuration holds exactly the configured size, in bytes (a session ends without notice, there is no close)
+        persisted == IF r.Q.open /\ r.op \in {"get", "open", "remove", "purge"} /\ r.Q.cfgb # r.Q.maxb
+                     THEN {"ConfiguredSizePersisted"} ELSE {}
+    IN base \cup extra \cup persisted
 
 TInit == i = 2 /\ nbad = 0
 
